@@ -147,6 +147,32 @@ def edif_dangling(text):
                     cell_of = None
         elif t.lower() == "instanceref" and cell_of is not None and i + 1 < len(toks) and toks[i + 1] not in "()":
             irefs.append((i, cell_of))
+    # near misses of a third kind: (cellRef X (libraryRef L)) retargeted to another DECLARED library that has no cell X
+    libs, cur = {}, None
+    depth, lib_depth = 0, None
+    for i, t in enumerate(toks):
+        if t == "(":
+            depth += 1
+            kw_ = toks[i + 1].lower() if i + 1 < len(toks) else ""
+            if kw_ in ("library", "external", "cell") and i + 2 < len(toks):
+                nm_ = toks[i + 2]
+                if nm_ == "(" and i + 4 < len(toks) and toks[i + 3].lower() == "rename":
+                    nm_ = toks[i + 4]
+                if kw_ in ("library", "external"):
+                    cur, lib_depth = nm_.lower(), depth
+                    libs.setdefault(cur, set())
+                elif cur is not None:
+                    libs[cur].add(nm_.lower())
+        elif t == ")":
+            if lib_depth is not None and depth == lib_depth:
+                cur, lib_depth = None, None
+            depth -= 1
+    for i in range(len(toks) - 5):
+        if toks[i].lower() == "cellref" and toks[i + 1] not in "()" and toks[i + 2] == "(" and toks[i + 3].lower() == "libraryref" and toks[i + 4] not in "()":
+            x, l = toks[i + 1].lower(), toks[i + 4].lower()
+            others = sorted(l2 for l2, cells in libs.items() if l2 != l and x not in cells)
+            for l2 in others[:2]:
+                out.append(("dangling:cellref-in-a-library-that-lacks-the-cell", i + 4, join_edif(toks[:i + 4] + [l2] + toks[i + 5:])))
     # an unsupported form of a supported construct: (instanceRef (member X k)) - arrays of instances are not read
     for i, c in irefs[:40]:
         out.append(("unsupported:instanceref-member", i + 1, join_edif(toks[:i + 1] + ["(", "member", toks[i + 1], "0", ")"] + toks[i + 2:])))
